@@ -129,6 +129,7 @@ class Explorer:
         self.max_paths = max_paths
         self.query_timeout_ms = query_timeout_ms
         self.logic = logic
+        self.refine_timeout_ms = 4000
         self.stats = Stats()
         self.stack = []
         self.pos = 0
@@ -240,7 +241,9 @@ class Explorer:
             self.solver.add(cond)
 
     # ------------------------------------------------------------- decisions
-    def branch(self, cond):
+    def branch(self, cond, refine=False):
+        """refine=True: a side that is feasible only thanks to the uninterpreted
+        abstraction of products/inverses/roots is re-checked with their axioms."""
         assert self.mode == "sym", "symbolic branch in concrete mode"
         cond = z3.simplify(cond)
         if z3.is_true(cond):
@@ -260,6 +263,15 @@ class Explorer:
         if rt == z3.unknown:
             raise Inconclusive(f"unknown feasibility: {self.solver.reason_unknown()}")
         can_t = rt == z3.sat
+        if can_t and refine:
+            ax = self._nonlinear_axioms(cond)
+            if ax:
+                self.solver.push()
+                self.solver.add(*ax)
+                r2 = self._check("q_feas", cond)
+                self.solver.pop()
+                if r2 == z3.unsat:
+                    can_t = False
         if can_t:
             rf = self._check("q_feas", z3.Not(cond))
             if rf == z3.unknown:
@@ -398,7 +410,9 @@ class Explorer:
         if ax:
             self.solver.push()
             self.solver.add(*ax)
+            self.solver.set("timeout", self.refine_timeout_ms)
             r2 = self._check("q_assert", z3.Not(cond))
+            self.solver.set("timeout", self.query_timeout_ms)
             if r2 == z3.sat:
                 cex = self.extract_cex(what, detail)
                 self.solver.pop()
@@ -410,6 +424,15 @@ class Explorer:
                 self.stats.proved += 1
                 self.stats.refined = getattr(self.stats, "refined", 0) + 1
                 return True
+            # the refined query is too hard for the solver: keep the model of the abstract
+            # query as a *candidate*; it is reported only if it reproduces concretely on the
+            # real code (otherwise the run is inconclusive)
+            d = dict(detail or {})
+            d["candidate_from_abstract_model"] = True
+            r3 = self._check("q_assert", z3.Not(cond))
+            if r3 == z3.sat:
+                self.cexs.append(self.extract_cex(what, d))
+                return False
             raise Inconclusive(f"unknown on refined (non-linear) assertion {what}: {reason}")
         self.cexs.append(self.extract_cex(what, detail))
         return False
